@@ -35,8 +35,8 @@ var _ io.Reader = (*hFile)(nil)
 func HarnessC08GrpcJSON() {
 	vSpinIsViolation()
 	E := int(vConcretize(vNondetInt("E", 1, 3)))
-	limit := int(vNondetInt("limit", 0, 3))
-	passes := int(vNondetInt("passes", 0, 3))
+	limit := int(vNondetInt("limit", 0, vHi(3, 8)))
+	passes := int(vNondetInt("passes", 0, vHi(3, 8)))
 	vAssume(limit != 0 || passes != 0)
 	lines := []string{`{"tag":"a"}`, `{"tag":"b"}`, `{"tag":"c"}`}
 	fs := &hFs{content: strings.Join(lines[:E], "\n") + "\n"}
